@@ -1,5 +1,6 @@
 import SstModel.Props.C09
 import SstModel.Props.FuncsTie.BloomFn
+import SstModel.Props.FuncsTie.BloomCreate
 /-
   Property statements about the code AS TRANSLATED from /repo/src on this run (no hand-written model in the
   statement): each is the property theorem about the model composed with the tie theorem of the function.
@@ -20,6 +21,23 @@ theorem C09_bloom_of_the_translated_reader (bw : Nat) (keys : List Bytes) (key :
   simp only [Bloom.policy]
   rw [this]
 
+/-- C09 for the translated WRITER and READER together (no model function in the statement): the filter the translated
+    `BloomPolicy::create_filter` builds from the concatenated keys and their offsets is produced without panic, and
+    the translated `key_may_match` accepts every key it was built from. -/
+theorem C09_bloom_of_the_translated_writer_and_reader (bpk : Nat) (ks : List Bytes) (key : Bytes) (fuel : Nat)
+    (hmem : key ∈ ks) (hf : ∀ k ∈ ks, k.length < fuel) (hf2 : ks.length < fuel) (hk : 256 ≤ fuel)
+    (hlen : ∀ k ∈ ks, k.length * 3332679571 < 2 ^ 64)
+    (hfit : Bloom.FitsBits bpk ks)
+    (hbits : ((if ks.length * bpk < 64 then 8 else (ks.length * bpk + 7) / 8) * 8) < 2 ^ 64)
+    (hfl : (Bloom.createFilter bpk ks).length < 2 ^ 61) :
+    ∃ f, Gen.bloom_create_filter fuel bpk (Bloom.kOf bpk) ks.flatten (offsetsOf ks 0) = .ok f ∧
+         Gen.bloom_key_may_match fuel key f = .ok true := by
+  refine ⟨Bloom.createFilter bpk ks, Gen_bloom_create_filter_tie' bpk ks fuel hf hf2 (by omega) hlen hbits, ?_⟩
+  have := C09_bloom_of_the_translated_reader bpk ks key hfit hmem fuel (hf key hmem) hk (hlen key hmem)
+    (by simpa [Bloom.policy] using hfl)
+  simpa [Bloom.policy] using this
+
 #print axioms C09_bloom_of_the_translated_reader
+#print axioms C09_bloom_of_the_translated_writer_and_reader
 
 end Sst
